@@ -30,13 +30,14 @@ RULE = (
     "sub/h.txt, sub/deep/i.txt, signac_statepoint.json.bak, signac_job_document.json.old}: src-only / dst-only / "
     "identical / differing (only with a resolving strategy); job and project documents disjoint / equal / nested "
     "(conflicting only with a resolving doc strategy); options strategy x doc_sync x recursive x exclude x selection "
-    "x check_schema x 4 entry points. Non-trivial: in one job something is copied AND something destination-only "
+    "x check_schema x 4 entry points; plus bulk pairs of 499-640 tiny jobs (around the 500-job cache-miss threshold; "
+    "source cache absent / stale / fresh; dry run) judged on P1, P4 over the whole source directory and 'a dry run changes nothing'. Non-trivial: in one job something is copied AND something destination-only "
     "must be preserved; distinct by case hash."
 )
 CLASSES = [
     "clone_new_job", "merge_existing_job", "nested_dir_recursive", "nested_dir_nonrecursive", "doc_nested_merge",
     "project_doc_merge", "selection_subset", "exclude_hit", "strategy_update_mtime", "doc_copy_mode",
-    "job_level_entry", "schema_gate", "name_prefixed_by_internal_file", "job_level_new_job", "noop_uninitialised_source",
+    "job_level_entry", "schema_gate", "bulk_jobs", "bulk_gt_500", "bulk_dry_run", "name_prefixed_by_internal_file", "job_level_new_job", "noop_uninitialised_source",
 ]
 ASSUMPTIONS = [
     "an exclude pattern excludes an entry iff it re.match-es the entry name at its level; only the two exact internal file names are excluded besides",
@@ -51,7 +52,75 @@ def _fmt(d):
     return fsutil.fmt_diff(d)
 
 
+def _run_bulk(case, ctx):
+    """Many tiny jobs (around the source's cache-miss threshold of 500): P1, P2 for one file, P4 over the whole
+    source project directory (including .signac/), dry run changes nothing at all."""
+    import os
+
+    import signac
+    from signac import sync
+
+    n = max(1, min(700, int(case.get("bulk", 501))))
+    k = max(0, min(n, int(case.get("dst_has", 0))))
+    base = ctx.tmpdir("c13bulk")
+    mms, cl = [], {"bulk_jobs", "bulk_gt_500" if n > 500 else "bulk_le_500"}
+    try:
+        src = signac.init_project(os.path.join(base, "src"))
+        dst = signac.init_project(os.path.join(base, "dst"))
+        ids = {}
+        for i in range(n):
+            j = src.open_job({"i": i}).init()
+            ids[i] = j.id
+            if i % 97 == 0:
+                fsutil.write_file(j.fn("f.txt"), b"payload %d" % i)
+            if i < k:
+                dst.open_job({"i": i}).init()
+        if case.get("src_cache") == "fresh":
+            src.update_cache()
+        elif case.get("src_cache") == "stale":
+            src.update_cache()
+            src.open_job({"i": n}).init()
+            ids[n] = oracle.job_id({"i": n})
+        pre_src, pre_dst = sp.snap(src.path), sp.snap(dst.path)
+        s2, d2 = signac.Project(src.path), signac.Project(dst.path)
+        dry = bool(case.get("dry_run"))
+        import contextlib
+        import io
+
+        try:
+            with contextlib.redirect_stdout(io.StringIO()):  # a dry run prints the files it would copy
+                if case.get("entry") == "sync_projects" or dry:
+                    sync.sync_projects(s2, d2, dry_run=dry, check_schema=False)
+                else:
+                    d2.sync(s2, check_schema=False)
+        except Exception as e:
+            mms.append(Mismatch("unexpected_exception", f"bulk sync of {n} jobs raised {type(e).__name__}: {e}"))
+            return {"mismatches": mms, "classes": sorted(cl), "nontrivial": False}
+        post_src, post_dst = sp.snap(src.path), sp.snap(dst.path)
+        d = fsutil.diff(pre_src, post_src)
+        if d["added"] or d["removed"] or d["changed"]:
+            mms.append(Mismatch("p4_src_changed", f"source project changed by the sync of {len(ids)} jobs (dry_run={dry}, source cache {case.get('src_cache')}): {_fmt(d)}"))
+        if dry:
+            cl.add("bulk_dry_run")
+            d = fsutil.diff(pre_dst, post_dst)
+            if d["added"] or d["removed"] or d["changed"]:
+                mms.append(Mismatch("dry_run_changed_dst", f"dry run of {len(ids)} jobs changed the destination: {_fmt(d)}"))
+        else:
+            missing = [i for i, jid in ids.items() if not sp.job_exists(post_dst, jid)]
+            if missing:
+                mms.append(Mismatch("p1_job_missing", f"bulk sync of {len(ids)} jobs: {len(missing)} source jobs are not in the destination, e.g. i={missing[:3]}"))
+            for i, jid in ids.items():
+                if i % 97 == 0 and i <= n - 1 and (post_dst.get(f"{sp.WS}/{jid}/f.txt") or (None, None))[1] != b"payload %d" % i:
+                    mms.append(Mismatch("p2_missing_top", f"bulk sync: file f.txt of job i={i} not copied byte-identically"))
+                    break
+        return {"mismatches": mms, "classes": sorted(cl), "nontrivial": k > 0 and not dry}
+    finally:
+        shutil.rmtree(base, ignore_errors=True)
+
+
 def run_case(case, ctx):
+    if "bulk" in case:
+        return _run_bulk(case, ctx)
     plan = sp.analyse(case)
     base, src_root, dst_root = sp.build_pair(ctx, plan, "c13")
     try:
@@ -335,8 +404,21 @@ CONSTRUCTED = [
 ]
 
 
+BULK = [
+    {"bulk": 501, "dst_has": 3, "entry": "Project.sync", "src_cache": "none"},
+    {"bulk": 520, "dst_has": 0, "entry": "sync_projects", "src_cache": "stale"},
+    {"bulk": 510, "dst_has": 10, "dry_run": True, "src_cache": "none"},
+    {"bulk": 500, "dst_has": 1, "entry": "Project.sync", "src_cache": "fresh"},
+    {"bulk": 499, "dst_has": 499, "entry": "sync_projects", "src_cache": "none"},
+    {"bulk": 640, "dst_has": 320, "entry": "Project.sync", "src_cache": "fresh"},
+]
+
+
 def run(ctx):
     if ctx.worker == 0:
         for c in CONSTRUCTED:
+            ctx.apply(c)
+    for i, c in enumerate(BULK if ctx.tier != "quick" else BULK[:4]):
+        if i % ctx.nworkers == ctx.worker:
             ctx.apply(c)
     drive(ctx, sp.pair_cases("c13"), 1000 if ctx.tier == "quick" else 12000, ctx.apply)
